@@ -13,18 +13,20 @@ def base_scenario(rng, N, humans, ps, origin, t0, rows, kind="wait", inertia=1.0
                                       initial_inertia=initial_inertia)}, I
 
 
-def human_strikes(N, humans, I, gap, t0, rows, early=0.004, shift_after=None, shift=0.0, late_at=None, late_by=0.0):
+def human_strikes(N, humans, I, gap, t0, rows, early=0.004, shift_after=None, shift=0.0, late_at=None, late_by=0.0,
+                  early0=None):
     """Humans ring rounds on Wheatley's own line, `early` seconds before their slot.  From
     `shift_after` = (row, place) on, every strike is `shift` later; the strike at `late_at` is `late_by` late."""
     ev = []
     for r in range(rows):
         for b in humans:
             p = b - 1
-            t = t0 + 3 + I * scen.blow_index(N, gap, r, p) - early
+            e = early0 if (r == 0 and early0 is not None) else early
+            t = t0 + 3 + I * scen.blow_index(N, gap, r, p) - e
             if shift_after is not None and (r, p) > shift_after:
                 t += shift
             if late_at == (r, p):
-                t += late_by + early
+                t += late_by + e
             ev.append([t, "strike", b])
     return ev
 
@@ -181,8 +183,16 @@ class C14(scen.PairProp):
             elif r_mode < 0.75:
                 origin = 1000.0
                 t0 = origin + 0.25 + rng.random()
-                scA, I = base_scenario(rng, N, humans, ps, origin, t0, rows)
-                scB, _ = base_scenario(rng, N, humans, ps, origin, t0, rows)
+                # half of the pairs with the rhythm as the command line really builds it (the first row regresses
+                # with inertia 0, the rhythm is inert from the second row on) and a band that follows Wheatley:
+                # every ringer pulls half an interval after their turn has begun, in one run one of them D late
+                # once; any bell may be in human hands, the treble included
+                real = rng.random() < 0.5
+                if real:
+                    humans = sorted(rng.sample(range(1, N + 1), rng.randint(1, N - 2)))
+                ii = 0.0 if real else 1.0
+                scA, I = base_scenario(rng, N, humans, ps, origin, t0, rows, initial_inertia=ii)
+                scB, _ = base_scenario(rng, N, humans, ps, origin, t0, rows, initial_inertia=ii)
                 D = rng.choice([0.001, 0.004, 0.02, 0.3, 1.7, 9.0, 40.0]) * rng.uniform(0.8, 1.2)
                 r0 = rng.randint(1, rows - 2)
                 hb = rng.choice(humans)
@@ -191,12 +201,18 @@ class C14(scen.PairProp):
                 # the rest of the band resumes a little less than the hold-up later, so that it stays
                 # (slightly) early for Wheatley and causes no second hold-up
                 delta = max(0, k - 2) * 0.01
-                scA["events"] += human_strikes(N, humans, I, gap, t0, rows)
-                scB["events"] += human_strikes(N, humans, I, gap, t0, rows, shift_after=(r0, hb - 1), shift=delta,
-                                               late_at=(r0, hb - 1), late_by=D)
-                scB["end"] += delta + 1
+                if real:
+                    scA["_band"] = {"humans": humans, "I": I, "late_at": None, "late_by": 0.0}
+                    scB["_band"] = {"humans": humans, "I": I, "late_at": [r0, hb - 1], "late_by": D}
+                    scA["end"] += 1.0
+                    scB["end"] += D + 1.0
+                else:
+                    scA["events"] += human_strikes(N, humans, I, gap, t0, rows)
+                    scB["events"] += human_strikes(N, humans, I, gap, t0, rows, shift_after=(r0, hb - 1), shift=delta,
+                                                   late_at=(r0, hb - 1), late_by=D)
+                    scB["end"] += delta + 1
                 yield {"k": "pair", "scenarios": [scA, scB], "mode": "holdup", "D": D, "at": [r0, hb - 1], "t0": t0,
-                       "I": I, "N": N}
+                       "I": I, "N": N, "real": real}
             else:
                 shift = rng.choice([1.0, 1.0e6, 1.7e9, 1.8e9 - 1000.0])
                 origin = 1000.0
@@ -214,6 +230,11 @@ class C14(scen.PairProp):
                 yield {"k": "pair", "scenarios": [scA, scB], "mode": "origin", "shift": shift, "t0": t0, "I": I, "N": N}
 
     def agents(self, req):
+        band = req["scenario"].get("_band")
+        if band is not None:
+            late = tuple(band["late_at"]) if band["late_at"] else None
+            return lambda s: [scen.Follower(
+                s, band["humans"], lambda r, p: 0.5 * band["I"] + (0.5 * band["I"] + band["late_by"] if (r, p) == late else 0.0))]
         rs = req["scenario"].get("_restart")
         if rs is None:
             return None
@@ -292,7 +313,15 @@ class C14(scen.PairProp):
         d0 = deltas[0]
         # (the regression is inert - inertia 1 on every row - so Wheatley's line is the configured one
         # and the wait it had is D plus the 1 ms latency, rounded up to whole polls)
-        if not (D - 1e-9 <= d0 <= D + 0.011 + 1e-6):
+        # (with the command line's own rhythm the first row regresses: the band's row-0 strikes, heard a millisecond
+        # of latency late, may have moved Wheatley's line by up to a poll, and the hold-up counts from that line)
+        if req.get("real"):
+            # (a band that follows: how late the late ringer was against Wheatley's line is only roughly D - the turn
+            # began somewhere in the interval before - so only the rest of the law is judged: whole polls, and
+            # everything afterwards later by exactly that much)
+            if not (0 <= d0 <= D + 2 * req["I"] + 0.03):
+                return f"a ringer {D:.4f} s late delayed the next strike by {d0:.4f} s"
+        elif not (D - 1e-9 <= d0 <= D + 0.011 + 1e-6):
             return f"a hold-up of {D:.4f} s delayed the next strike by {d0:.4f} s"
         if abs(d0 / 0.01 - round(d0 / 0.01)) > 1e-4:
             return f"the delay {d0:.6f} s is not a whole number of 10 ms polls"
